@@ -104,7 +104,7 @@ func (h *streamquotaH) ensure() {
 	}
 }
 
-func ints(l []int) string {
+func streamquota_ints(l []int) string {
 	sort.Ints(l)
 	s := make([]string, len(l))
 	for i, v := range l {
@@ -125,7 +125,7 @@ func (h *streamquotaH) status() string {
 			waiting = append(waiting, w)
 		}
 	}
-	s := fmt.Sprintf("created=%s failed=%s waiting=%s q=%d ws=%d", ints(h.created), ints(h.failed), ints(waiting), q, ws)
+	s := fmt.Sprintf("created=%s failed=%s waiting=%s q=%d ws=%d", streamquota_ints(h.created), streamquota_ints(h.failed), streamquota_ints(waiting), q, ws)
 	h.created, h.failed = nil, nil
 	return s
 }
